@@ -95,7 +95,7 @@ def h_construct(c, pkg, op, pre=None):
     contract = vmstep.StubContract(c)
     contracts = c.dict({b'C': contract})
     operands, lens = CONSTRUCTS[op]
-    tape = C.Tape(operands(), callstack_limit=2, contracts=contracts, plugins=plugins)
+    tape = C.Tape(operands(), callstack_limit=3, callstack_count=1, contracts=contracts, plugins=plugins)
     # the parent runs under the embedder's configuration, computed by the real code
     F.set_tape_flags(tape, emb)
     stack = C.Stack()
@@ -108,7 +108,7 @@ def h_construct(c, pkg, op, pre=None):
     summ = vmstep.make_summary(c, pkg, pops=0, pushes=0, writes_cache=False, may_return=False, flag_ops=True, parent=tape)
     if op == 'OP_CALL':
         # define function 0 with the real OP_DEF first (its sub-tape construction is part of the claim)
-        dt = C.Tape(b'\x00\x00\x01\x00', callstack_limit=2, contracts=contracts, plugins=plugins, flags=tape.flags,
+        dt = C.Tape(b'\x00\x00\x01\x00', callstack_limit=3, callstack_count=1, contracts=contracts, plugins=plugins, flags=tape.flags,
                     definitions=tape.definitions)
         F.OP_DEF(dt, stack, cache)
     with vmstep.Installed(pkg, summ):
@@ -135,7 +135,10 @@ def h_construct(c, pkg, op, pre=None):
                 'check_template' in b.plugins and list(b.plugins['check_template']) == list(plugins['check_template']),
                 op=op, body=b.k)
         c.check('body_sees_parent_contracts', b'C' in b.contracts and b.contracts[b'C'] is contract, op=op, body=b.k)
-        c.check('body_call_limit_is_parent_limit', b.callstack_limit == 2)
+        c.check('body_call_limit_is_parent_limit', b.callstack_limit == 3)
+        # the call budget already spent governs the body too: carried into IF / ELSE / TRY / EXCEPT / LOOP bodies, one more for CALL / EVAL
+        c.check('body_call_count_is_parent_count', b.callstack_count == (2 if op in ('OP_CALL', 'OP_EVAL') else 1), op=op, body=b.k,
+                count=b.callstack_count)
     if op == 'OP_EVAL':
         if 'disallow_OP_EVAL' in parent_before:
             c.check('disallowed_eval_stays_disallowed', r[0] == 'raise' and not summ.bodies)
